@@ -172,12 +172,20 @@ func (P *Program) VerifyFunc(fn *ssa.Function) (res *FuncResult) {
 			if !con.AssignsAll {
 				c.frameObligations(fr, ex, locs, name, props)
 			} else if con.NoGhost {
-				gn, gs := c.ghostLeaves()
-				for i, leaf := range gn {
-					cur := c.H(ex.st, leaf, gs[i])
-					init := c.H(fr.old, leaf, gs[i])
+				// protected components (ghost state, logger configuration, registry) must be unchanged
+				var leafs []string
+				for leaf := range c.compSorts {
+					if protectedLeaf(leaf) {
+						leafs = append(leafs, leaf)
+					}
+				}
+				sort.Strings(leafs)
+				for _, leaf := range leafs {
+					srt := c.compSorts[leaf]
+					cur := c.H(ex.st, leaf, srt)
+					init := c.H(fr.old, leaf, srt)
 					if cur != init {
-						c.oblige("frame", fmt.Sprintf("%s#frame{%s}", name, leaf), "", props, eq(cur, init), ex.site.Pos(), "declared 'noghost': ghost state unchanged: "+leaf)
+						c.oblige("frame", fmt.Sprintf("%s#frame{%s}", name, leaf), "", props, eq(cur, init), ex.site.Pos(), "declared 'auto'/'noghost': protected component unchanged: "+leaf)
 					}
 				}
 			}
@@ -209,7 +217,7 @@ func (P *Program) VerifyFunc(fn *ssa.Function) (res *FuncResult) {
 	_ = returns
 	if con != nil {
 		for _, a := range con.Asserts {
-			if strings.HasPrefix(a.Where, "call ") && !c.atCallSeen[a] {
+			if strings.HasPrefix(a.Where, "call ") && !c.atCallSeen[a] && a.Effect == nil {
 				c.oblige("assert", fmt.Sprintf("%s#at-%s.reached[%s]", name, strings.ReplaceAll(a.Where, " ", "-"), lbl(a.Clause)), a.Clause.Label, a.Clause.Props, "false", fn.Pos(), "the call site named by the at-clause exists: "+a.Where)
 			}
 		}
